@@ -136,6 +136,30 @@ CLAIMED = {
     note="PARTIAL: the tracer, XLA fusion/reassociation and vmap batching rules are outside the model (exercised, not proved). The classification rules of gen_fields.py are trusted.",
     technique="Coq proof (pytree round trip by structural induction; finite enumeration of a source-regenerated branch table) + transformation runs",
     ref="DESIGN.md section 6, C14"),
+ "C10": dict(
+    text="Machine-checked: (general family, Coq reals, about the regenerated Sum/Product/Constant) every expression tree over +, *, scalars on either side and sum() evaluates to the same arithmetic on its "
+         "leaves; (quasiseparable family, any field, generic kernels) scaling and sums have the pointwise value, combinators return state-space kernels of dimension m1+m2 / m1*m2 / m; the operator table never "
+         "yields a quasiseparable kernel from a mixed pair. The Kronecker state of products and nested combinations is tied by exact correspondence with the implementation on integer kernels; random trees of "
+         "depth <= 3/4 in both families against recursive numpy evaluation, Quasisep-ness, solver selection, dense-namesake twins, mixing pairs.",
+    note="Trusted: Coq kernel (+ stdlib real axioms for the general family), translator, models Model/SSKernel.v and Model/Guards.v, harness. qs_product_pointwise (mixed-product property for the code's index map) is not yet a theorem.",
+    technique="Coq proof (induction over expression trees; block-diagonal algebra) + exact correspondence + oracle",
+    ref="DESIGN.md section 6, C10"),
+ "C15": dict(
+    text="Machine-checked: dual-number evaluation (the rules of Base/Dual.v) of any expression over + - * / sqrt is its true derivative (Coquelicot is_derive) wherever it is smooth; the gradient through "
+         "L2Distance.distance is finite for all coordinate pairs incl. coincident ones while the naive sqrt form is not; the isfinite guard is transparent on the finite branch. The whole pipeline model "
+         "instantiated at dual numbers is compared with jax.jvp of the implementation; grad and jacfwd of log_probability / predictive mean / variance w.r.t. hyper-parameters, noise, mean and y, both solvers, "
+         "against Richardson finite differences of an independent numpy oracle; finiteness of coordinate gradients at coincident points.",
+    note="PARTIAL: JAX's AD engine is an oracle; kernel-formula derivatives enter the model as tangents from jax.jvp of to_symm_qsm. Trusted: Coquelicot, stdlib real axioms.",
+    technique="Coq proof (is_derive of dual evaluation; totality of the guarded L2 gradient) + dual-number model correspondence",
+    ref="DESIGN.md section 6, C15"),
+ "C20": dict(
+    text="Machine-checked (Coq reals): a conjugate root pair's state-space block has the Celerite value 2 Re(acf e^{r tau}), a real root acf e^{r tau} (about the regenerated Celerite definitions whose formulas CARMA reuses); "
+         "list convolution of quadratic factors (any number, optional linear factor) evaluates to the product polynomial (from_quads). The autocovariance claim is decided against the companion-form state space "
+         "(scipy solve_continuous_lyapunov + expm) over every real/complex root arrangement with p <= 6, q in {0, p-1, random}; constructors agree; poly <-> quads round trip.",
+    note="PARTIAL: jnp.roots is an oracle and the general-p identity between Kelly et al. eq. 4 and the spectrum is not formalised. KNOWN FINDING (known_findings.txt): NaN when a conjugate pair's Celerite term is not "
+         "(numerically) positive semi-definite, incl. the boundary case of CARMA(2,0) with complex roots. Two defects repaired by fix: commits (obsmodel ordering, poly2quads pairing).",
+    technique="Coq proof of the root-finder-independent parts + companion-form Lyapunov oracle",
+    ref="DESIGN.md section 6, C20"),
 }
 NOT_YET = {}
 
